@@ -34,6 +34,21 @@ func runReplay(t *testing.T, fam *Family, plan any, tape []uint32) (sig string, 
 	return "", res
 }
 
+// hasSig reports whether the run failed with the wanted signature, as primary or as an extra violation.
+func hasSig(res *RunResult, sig, want string) bool {
+	if sig == want {
+		return true
+	}
+	if res != nil {
+		for _, v := range res.Extra {
+			if v.Sig == want {
+				return true
+			}
+		}
+	}
+	return false
+}
+
 // Shrink minimises a failing replay while the same signature persists.
 func Shrink(t *testing.T, rp *Replay, budget time.Duration, maxAttempts int) (*Replay, int) {
 	fam := familyByName(rp.Property, rp.Family)
@@ -50,8 +65,8 @@ func Shrink(t *testing.T, rp *Replay, budget time.Duration, maxAttempts int) (*R
 			return false
 		}
 		attempts++
-		sig, _ := runReplay(t, fam, p, tp)
-		return sig == want
+		sig, res := runReplay(t, fam, p, tp)
+		return hasSig(res, sig, want)
 	}
 	if !try(plan, tape) {
 		return rp, attempts // does not reproduce in-process; leave it alone
@@ -139,8 +154,13 @@ func Shrink(t *testing.T, rp *Replay, budget time.Duration, maxAttempts int) (*R
 	if res != nil {
 		out.Trace = res.Trace
 		out.TraceHash = res.TraceHash
-		if res.Viol != nil {
+		if res.Viol != nil && res.Viol.Sig == want {
 			out.Detail = res.Viol.Detail
+		}
+		for _, v := range res.Extra {
+			if v.Sig == want {
+				out.Detail = v.Detail
+			}
 		}
 	}
 	return &out, attempts
@@ -267,7 +287,10 @@ func (p *SrvPlan) Shrinks() []any {
 				add(func(q *SrvPlan) bool { q.Lanes[i].Resp.BodyLen /= 2; return true })
 			}
 			if len(l.Resp.Fields) > 1 {
-				add(func(q *SrvPlan) bool { q.Lanes[i].Resp.Fields = q.Lanes[i].Resp.Fields[len(q.Lanes[i].Resp.Fields)-1:]; return true })
+				add(func(q *SrvPlan) bool {
+					q.Lanes[i].Resp.Fields = q.Lanes[i].Resp.Fields[len(q.Lanes[i].Resp.Fields)-1:]
+					return true
+				})
 			}
 			if l.Resp.Mode != "buffered" {
 				add(func(q *SrvPlan) bool { q.Lanes[i].Resp.Mode = "buffered"; return true })
